@@ -10,6 +10,7 @@ import os
 import shutil
 
 import hsreplay
+import hsreplay13
 import scen
 import vlib
 
@@ -39,6 +40,18 @@ def run(chk):
                                "script": {"scen": sc, "steps": share[r["script"]]["steps"], "cap": 2, "bkcap": 3}})
         chk.parts["replay." + fam] = {"scripts": summ["scripts"], "cookie_violations": n}
     chk.sample({"script": [(x["act"], x["arg"]) for x in scripts[len(scripts) // 2]["steps"]]})
+    # DTLS 1.3: CookieFirst13 / NoTimerHRR on spec/Handshake13.tla and its edge scripts on real endpoints
+    res = vlib.tlc_check("Handshake13", "Handshake13.hrr.safe.%s.cfg" % t, timeout=2400)
+    chk.add_tlc("safe13.hrr", res)
+    scripts13 = hsreplay13.generate(chk, "hrr")
+    rows, summ, sc13 = hsreplay13.replay(chk, binary, "hrr", scripts13)
+    n13 = 0
+    for r in rows:
+        for v in [x for x in r.get("law", []) if "C13" in x][:1]:
+            n13 += 1
+            chk.violation({"kind": "cookie-first-13", "what": v,
+                           "script13": {"scen": sc13, "steps": scripts13[r["script"]]["steps"], "cap": 2, "bkcap": 3}})
+    chk.parts["replay13.hrr"] = {"scripts": summ["scripts"], "cookie_violations": n13, "diverged": summ.get("diverged", 0)}
     # (C) ClientHello pairs
     cases = []
     fams = ["full12", "psk12", "hrr13s"] if chk.quick else ["full12", "psk12", "cid12", "clientauth12", "hrr13s"]
@@ -116,6 +129,14 @@ def replay(chk, path):
             for r in vlib.read_ndjson(out):
                 if r.get("violations"):
                     chk.violation(dict(facts, replayed=True))
+        elif "script13" in facts:
+            open(inp, "w").write(json.dumps(facts["script13"]) + "\n")
+            vlib.run_test(binary, "TestVerifHs13Scripts", {"VERIF_IN": inp, "VERIF_OUT": out})
+            chk.evaluated(key="replay13")
+            chk.evaluated(key="replay")
+            for r in vlib.read_ndjson(out)[:-1]:
+                if any("C13" in x for x in r.get("law", [])):
+                    chk.violation(dict(facts, replayed=True), replay=path)
         elif "script" in facts:
             open(inp, "w").write(json.dumps(facts["script"]) + "\n")
             vlib.run_test(binary, "TestVerifHsScripts", {"VERIF_IN": inp, "VERIF_OUT": out})
